@@ -42,7 +42,7 @@ class C01(Check):
         for n in (0, 600, 1024):
             content = bytes(i % 251 for i in range(n))
             for k in range(0, L + 1):
-                for combo in itertools.product(itertools.product(steps, (0, 0, 1), pk), repeat=k):
+                for combo in itertools.product(itertools.product(steps, (0, 1, 2) if quick else (0, 0, 1, 2), pk), repeat=k):
                     t = 0
                     ev = []
                     for (dt, a, p) in combo:
@@ -68,12 +68,28 @@ class C01(Check):
                 ev = ev[:rng.randrange(0, len(ev))]
             ch = [rng.randrange(1, bs + 3) for _ in range(rng.randrange(0, 12))]
             yield T.mk_case(content, ch, options=opts, retries=retries, wrap=rng.choice([0, 1, None]), events=ev)
-        # (d) crossing block 65535
-        for wrap in ((0, 1, None) if not quick else (rng.choice([0, 1]), None)):
+        # (d) crossing block 65535: plain, and with duplicated / stale / future ACKs around the wrap
+        for wrap in ((0, 1, None) if not quick else (None,)):
             nblocks = 65538
             content = bytes(i % 253 for i in range(8 * (nblocks - 1) + 3))
             wants = [0] + T.numbering(nblocks, wrap)
             ev = [(i, 0, T.ack(w)) for i, w in enumerate(wants)]
+            yield T.mk_case(content, [], options=[("blksize", "8")], wrap=wrap, events=ev)
+        for wrap in ((0, 1) if not quick else (rng.choice([0, 1]),)):
+            nblocks = 65540
+            content = bytes(i % 253 for i in range(8 * (nblocks - 1) + 5))
+            wants = [0] + T.numbering(nblocks, wrap)
+            ev = []
+            t = 0
+            for i, w in enumerate(wants):
+                if i >= 65534 and i > 0:
+                    # noise while block w is outstanding: duplicate of the previous ACK, stale and future ones
+                    for noise in (wants[i - 1], 65535, 65534, (w + 1) & 0xFFFF, 1):
+                        if noise != w:
+                            ev.append((t, 0, T.ack(noise)))
+                            t += 1
+                ev.append((t, 0, T.ack(w)))
+                t += 1
             yield T.mk_case(content, [], options=[("blksize", "8")], wrap=wrap, events=ev)
 
     def impl(self, c):
